@@ -166,11 +166,34 @@ type VerifC18Env struct {
 	cancel context.CancelFunc
 	mu     sync.Mutex
 	dials  []VerifC18Dial
+	// the DNS controller's store was handed to the next generation (ReuseForReload): Close must not close it
+	dnsHandedOver bool
 }
 
 // VerifC18NewEnv builds the control plane literal. confText is a whole config (global/group/routing);
 // userGroups are the names of the user groups in outbound-index order (first = OutboundUserDefinedMin).
 func VerifC18NewEnv(mode string, confText string, userGroups []string) (*VerifC18Env, error) {
+	return verifC18Build(mode, confText, userGroups, nil, "")
+}
+
+// Reload builds the next generation the way a configuration reload does: a brand-new ControlPlane (fresh
+// real-domain set and negative cache, fresh outbounds and routing matcher) whose DNS state is carried over from
+// this generation, and returns it; the receiver is closed.
+//
+//	how = "restore": the old controller's cache is cloned (controlPlaneDNSRuntime.cloneDnsCache ->
+//	      DnsController.CloneCacheForReload), the new control plane gets a fresh DnsController and replays the
+//	      carried cache (ControlPlane.replayDnsReloadCache -> DnsController.RestoreReloadCache)
+//	how = "reuse":   DnsController.ReuseForReload: the long-lived store is shared, the new generation gets a new facade
+func (e *VerifC18Env) Reload(mode string, confText string, userGroups []string, how string) (*VerifC18Env, error) {
+	ne, err := verifC18Build(mode, confText, userGroups, e, how)
+	if err != nil {
+		return nil, err
+	}
+	e.Close()
+	return ne, nil
+}
+
+func verifC18Build(mode string, confText string, userGroups []string, prev *VerifC18Env, how string) (*VerifC18Env, error) {
 	dm, err := consts.ParseDialMode(mode)
 	if err != nil {
 		return nil, err
@@ -212,7 +235,7 @@ func VerifC18NewEnv(mode string, confText string, userGroups []string) (*VerifC1
 		realDomainSet: bloom.NewWithEstimates(2048, 0.001), // as in NewControlPlane
 	}
 	// The production option closure shape (ControlPlane.dnsControllerOption) minus the kernel-map callbacks.
-	dc, err := NewDnsController(nil, &DnsControllerOption{
+	dcOption := &DnsControllerOption{
 		Log:              log,
 		LifecycleContext: ctx,
 		NewCache: func(fqdn string, answers, ns, extra []dnsmessage.RR, deadline time.Time, originalDeadline time.Time) (*DnsCache, error) {
@@ -225,19 +248,37 @@ func VerifC18NewEnv(mode string, confText string, userGroups []string) (*VerifC1
 				OriginalDeadline: originalDeadline,
 			}, nil
 		},
-	})
+	}
+	var dc *DnsController
+	switch {
+	case prev == nil || how == "restore":
+		dc, err = NewDnsController(nil, dcOption)
+	case how == "reuse":
+		dc, err = prev.CP.dnsController.ReuseForReload(dcOption, nil)
+		if err == nil {
+			prev.dnsHandedOver = true
+		}
+	default:
+		err = fmt.Errorf("verif: unknown reload kind %q", how)
+	}
 	if err != nil {
 		cancel()
 		return nil, err
 	}
 	cp.dnsController = dc
 	env.CP = cp
+	if prev != nil && how == "restore" {
+		cp.pendingDnsReloadCache = prev.CP.cloneDnsCache()
+		cp.replayDnsReloadCache()
+	}
 	return env, nil
 }
 
 func (e *VerifC18Env) Close() {
 	e.cancel()
-	_ = e.CP.dnsController.Close()
+	if !e.dnsHandedOver {
+		_ = e.CP.dnsController.Close()
+	}
 	for _, g := range e.CP.outbounds {
 		_ = g.Close()
 	}
